@@ -2,5 +2,5 @@
 # seeded_batch.sh <logname> <seed-id>... : run seeded_run --suite sequentially, append to .work/<logname>.log
 cd "$(dirname "$0")/.."
 log=.work/$1.log; shift
-for s in "$@"; do echo "== $s" >> $log; tools/seeded_run.py --suite $s 2>&1 | tail -2 | cut -c1-600 >> $log; done
+for s in "$@"; do echo "== $s" >> $log; tools/seeded_run.py ${NOSUITE:+--nosuite} ${NOSUITE:---suite} $s 2>&1 | tail -2 | cut -c1-600 >> $log; done
 echo DONE >> $log
